@@ -146,6 +146,35 @@ Proof.
   exists nc, nt, np. repeat split; auto. apply nodupb_NoDup. exact E3.
 Qed.
 
+Lemma NoDup_nodupb l : NoDup l -> nodupb l = true.
+Proof.
+  induction 1 as [|x l Hx Hn IH]; [reflexivity|]. cbn [nodupb]. rewrite IH, andb_true_r.
+  apply negb_true_iff. destruct (existsb (Nat.eqb x) l) eqn:E; [|reflexivity].
+  apply existsb_exists in E. destruct E as [y [Hy E]]. apply Nat.eqb_eq in E. subst. contradiction.
+Qed.
+
+Lemma wf_iff g m : wf_instr g = Some m <->
+  exists nc nt np, arity (iname g) = Some (nc, nt, np) /\ assoc (iname g) dispatch = Some m /\
+    length (icontrols g) = nc /\ length (itargets g) = nt /\ NoDup (icontrols g ++ itargets g) /\
+    (np <= 1 \/ length (iargs g) = np).
+Proof.
+  split.
+  - intro H. destruct (wf_spec g m H) as (nc & nt & np & H1 & H2 & H3 & H4 & H5 & H6).
+    exists nc, nt, np. repeat split; auto. unfold params_ok in H6. apply orb_prop in H6.
+    destruct H6 as [H6|H6]; [left; apply Nat.leb_le| right; apply Nat.eqb_eq]; exact H6.
+  - intros (nc & nt & np & H1 & H2 & H3 & H4 & H5 & H6). unfold wf_instr. rewrite H1, H2.
+    apply Nat.eqb_eq in H3, H4. unfold iqubits. rewrite H3, H4, (NoDup_nodupb _ H5). cbn [andb].
+    replace (params_ok np (iargs g)) with true; [reflexivity|]. symmetry. unfold params_ok. apply orb_true_iff.
+    destruct H6 as [H6|H6]; [left; apply Nat.leb_le| right; apply Nat.eqb_eq]; exact H6.
+Qed.
+
+Lemma arity_cover n m : In (n, m) dispatch -> exists ar, arity n = Some ar.
+Proof.
+  intro H. pose proof all_ok_true as K. unfold all_ok in K. apply andb_prop in K. destruct K as [_ K].
+  unfold cover in K. rewrite forallb_forall in K. specialize (K _ H). cbn [fst] in K.
+  destruct (arity n) as [ar|]; [exists ar; reflexivity| discriminate].
+Qed.
+
 Ltac dlen := repeat match goal with
   | H : length ?l = 0 |- _ => is_var l; destruct l; [clear H | discriminate H]
   | H : length ?l = S _ |- _ => is_var l; destruct l; [discriminate H | cbn [length] in H; apply eq_add_S in H]
@@ -307,8 +336,8 @@ Proof.
     destruct Ay' as [Ay' _]. rewrite Ay' in Ay. injection Ay as <- <-.
     destruct (icontrols y) as [|? ?]; try discriminate Lcy. rewrite <- H. cbn [List.app] in *. ndinv.
     destruct E1 as [E|E]; rewrite E in Dy.
-    + apply (caseA_X A B mx my "X" Dx Dy KX). congruence.
-    + apply (caseA_X A B mx my "RX" Dx Dy KRX). congruence.
+    + apply (caseA_X A B mx my "X" Dx Dy KX). intuition congruence.
+    + apply (caseA_X A B mx my "RX" Dx Dy KRX). intuition congruence.
   - destruct (name_in (iname y) ["Z"; "RZ"]) eqn:E2; [|discriminate H].
     apply list_eqb_eq in H. apply name_in2 in E2.
     assert (Ay' : arity (iname y) = Some (0, 1, npy)).
@@ -316,8 +345,8 @@ Proof.
     rewrite Ay' in Ay. injection Ay as <- <-.
     destruct (icontrols y) as [|? ?]; try discriminate Lcy. rewrite <- H. cbn [List.app] in *. ndinv.
     destruct E2 as [E|E]; rewrite E in Dy.
-    + apply (caseA_Z A B mx my "Z" Dx Dy KZ). congruence.
-    + apply (caseA_Z A B mx my "RZ" Dx Dy KRZ). congruence.
+    + apply (caseA_Z A B mx my "Z" Dx Dy KZ). intuition congruence.
+    + apply (caseA_Z A B mx my "RZ" Dx Dy KRZ). intuition congruence.
 Qed.
 
 Lemma commutes_sym A B ma mb qa qb : commutes A B ma mb qa qb -> commutes B A mb ma qb qa.
@@ -345,7 +374,7 @@ Proof.
       destruct (np <=? 1) eqn:Enp.
       * apply (caseB ma nc nt Hs HB); auto.
       * (* >= 2 parameters: equal argument lists, no controls: the same gate twice *)
-        subst nc. unfold params_ok in Pa, Pb. rewrite Enp in Pa, Pb. cbn [orb] in Pa, Pb.
+        rewrite HB in Lca, Lcb. unfold params_ok in Pa, Pb. rewrite Enp in Pa, Pb. cbn [orb] in Pa, Pb.
         apply Nat.eqb_eq in Pa, Pb. apply Nat.leb_gt in Enp.
         unfold same_action in Hr.
         replace (length (iargs a) <=? 1) with false in Hr by (symmetry; apply Nat.leb_gt; lia).
